@@ -156,6 +156,11 @@ class sx_int(metaclass=_IntMeta):
             return mkint(bv(x), 0, 1)
         if isinstance(x, SymFloat):
             return x.trunc()
+        if isinstance(x, core.SymRatio):
+            c = int(x.c)
+            if c == x.c and c & (c - 1) == 0:
+                return x.n // c      # division by a power of two is exact in binary floating point
+            raise Inconclusive("int() of a ratio-abstracted float with a non power-of-two divisor")
         if isinstance(x, SymFmt):
             return x.to_int()
         if isinstance(x, SymBytesBase):
